@@ -33,6 +33,29 @@ var ghostNodeOf func(e kv.Entry) *ziptree.Node
 //@   requires node != nil
 //@   ensures result != nil && ghostNodeOf(kv.Entry(result)) == node && string(kv.Entry(result).Key()) == string(node.Key)
 
+// Put / Delete always record the operation in the tree, whatever it held before: after Put the
+// key maps to a node with this key, value and sequence number; after Delete it maps to a DELETE
+// MARKER with this sequence number - also when the key was not in this memtable (the marker has
+// to hide versions of the key held by older memtables and tables). No other key changes.
+//@ define mtNode(t, key) := t.zt.view[string(key)]
+//@ func MemTable.Put
+//@   property C07 C03
+//@   nosafety
+//@   requires t.zt != nil
+//@   modifies t.size, ziptree.ZipTree.view, ziptree.ZipTree.root, ziptree.Node.left, ziptree.Node.right, ziptree.Node.rank
+//@   ensures has(t.zt.view, string(key)) && mtNode(t, key) != nil && string(mtNode(t, key).Key) == string(key) && same(mtNode(t, key).Value, value) &&
+//@           mtNode(t, key).Meta.(meta).seqNum == seqNum && mtNode(t, key).Meta.(meta).flag == putFlag
+//@   ensures forall(func(k string) bool { return k != string(key) ==> has(t.zt.view, k) == has(old(t.zt.view), k) && t.zt.view[k] == old(t.zt.view)[k] })
+
+//@ func MemTable.Delete
+//@   property C07 C03
+//@   nosafety
+//@   requires t.zt != nil
+//@   modifies t.size, ziptree.ZipTree.view, ziptree.ZipTree.root, ziptree.Node.left, ziptree.Node.right, ziptree.Node.rank
+//@   ensures has(t.zt.view, string(key)) && mtNode(t, key) != nil && string(mtNode(t, key).Key) == string(key) &&
+//@           mtNode(t, key).Meta.(meta).seqNum == seqNum && mtNode(t, key).Meta.(meta).flag == deleteFlag
+//@   ensures forall(func(k string) bool { return k != string(key) ==> has(t.zt.view, k) == has(old(t.zt.view), k) && t.zt.view[k] == old(t.zt.view)[k] })
+
 //@ func MemTable.Get
 //@   property C07 C03
 //@   requires t.zt != nil
